@@ -120,24 +120,23 @@ func c09Env(r *R) {
 	// transport side
 	tc := r.fn("C09.3", "transport/graphsync", "Transport", "CleanupChannel")
 	if tc != nil {
-		nDel := 0
-		for _, b := range tc.Blocks {
-			for _, ins := range b.Instrs {
-				if call, ok := ins.(*ssa.Call); ok {
-					if bi, ok := call.Common().Value.(*ssa.Builtin); ok && bi.Name() == "delete" && r.d.Of(call.Common().Args[0]) == "t.dtChannels" && r.d.Of(call.Common().Args[1]) == "chid" {
-						nDel++
-					}
-				}
-			}
-		}
-		r.c.Check(nDel == 1, "C09.3", "Transport.CleanupChannel/forget", r.p.Pos(tc.Pos()), "forgets the channel", "Transport.CleanupChannel does not delete the channel from dtChannels")
 		n := 0
+		forgets := true
 		for _, pt := range r.pathsOf("C09.3", tc) {
 			if pt.Has("+t.dtChannels[chid]#1") {
 				n++
+				// (helpers introduced later are walked through, in the caller's terms)
+				nDel := pt.Count(func(ev core.Ev) bool {
+					bi, ok := ev.C.Value.(*ssa.Builtin)
+					return ok && bi.Name() == "delete" && pt.ArgDesc(ev, 0) == "t.dtChannels" && pt.ArgDesc(ev, 1) == "chid"
+				})
+				if nDel != 1 {
+					forgets = false
+				}
 				r.c.Check(pt.Count(r.p.Is("(*transport/graphsync.dtChannel).cleanup")) == 1, "C09.3", fmt.Sprintf("Transport.CleanupChannel/cleanup#%d", n), r.p.Pos(tc.Pos()), "known channel is cleaned up", "a tracked channel is not cleaned up: "+pt.Describe())
 			}
 		}
+		r.c.Check(forgets && n > 0, "C09.3", "Transport.CleanupChannel/forget", r.p.Pos(tc.Pos()), "forgets the channel", "Transport.CleanupChannel does not delete the channel from dtChannels")
 		r.c.Floor("C09.3", n, 1, "paths of Transport.CleanupChannel with a tracked channel")
 	}
 	c16Cleanup(r, "C09.3")
@@ -292,5 +291,5 @@ func c09Selects(r *R) {
 			}
 		}
 	}
-	r.c.Floor("C09.6", n, 5, "blocking selects in transport/graphsync")
+	r.c.Floor("C09.6", n, 3, "blocking selects in transport/graphsync")
 }
